@@ -131,7 +131,8 @@ func (p Protocol) String() string {
 
 // Supported returns true if the protocol is a supported Minecraft Java edition version.
 func (p Protocol) Supported() bool {
-	return !p.Unknown()
+	v := p.Version() // Unknown if the protocol number is not a known version
+	return v != Unknown && v != Legacy
 }
 
 func (p Protocol) Legacy() bool {
